@@ -16,6 +16,7 @@ import (
 	"fmt"
 	"hash/fnv"
 	"os"
+	"regexp"
 	"sort"
 	"strconv"
 	"strings"
@@ -526,4 +527,28 @@ func FuzzFail(sub string, c interface{}, f *Failure) bool {
 	b, _ := json.Marshal(violation{Sub: sub, Sig: f.Sig, Msg: f.Msg, Case: cb})
 	_ = os.WriteFile(fmt.Sprintf("%s/%016x.json", dir, hash64(cb)), b, 0o644)
 	return true
+}
+
+var sigDigits = regexp.MustCompile(`0x[0-9a-f]+|[0-9]+`)
+var sigFrame = regexp.MustCompile(`(?m)^(github\.com/elliotchance/gedcom/v39\S*?)\(`)
+
+// PanicSig reduces a recovered panic to a stable signature: the panic value with
+// numbers normalised plus the innermost frame inside the package under test.
+// Call it as PanicSig(p, debug.Stack()) inside the deferred function.
+func PanicSig(p interface{}, stack []byte) string {
+	v := sigDigits.ReplaceAllString(fmt.Sprint(p), "N")
+	if len(v) > 70 {
+		v = v[:70]
+	}
+	fn := "?"
+	// frames after the call to panic() are the interesting ones
+	st := string(stack)
+	if i := strings.Index(st, "panic("); i >= 0 {
+		st = st[i:]
+	}
+	for _, m := range sigFrame.FindAllStringSubmatch(st, -1) {
+		fn = strings.TrimPrefix(m[1], "github.com/elliotchance/gedcom/v39")
+		break
+	}
+	return strings.ReplaceAll(strings.TrimSpace(v), " ", "_") + "@" + fn
 }
